@@ -28,7 +28,7 @@ func genC01(t *rapid.T) C01Case {
 		BadVars:  rapid.Bool().Draw(t, "badvars"),
 		Custom:   true, Stateful: true, Consts: true, Aliases: true,
 	}}
-	tree := wrapRoot(g.Expr(rootTy(t), g.Depth))
+	tree := wrapRoot(g.Program(rootTy(t)))
 	fixEmptyLists(tree)
 	u := UniverseFor(t, tree, rapid.IntRange(0, 4).Draw(t, "collide") == 0)
 	c := C01Case{U: *u, Tree: tree, How: rapid.IntRange(0, howModes-1).Draw(t, "how"), Var: rapid.IntRange(0, 3).Draw(t, "variant")}
